@@ -58,9 +58,9 @@ if [ "$what" = all ] || [ "$what" = seeded ]; then
   done
 fi
 if [ "$what" = all ] || [ "$what" = mutants ]; then
-  grep -v '^#' $VERIF/mutants/EXPECT | while read patch id want own; do
+  grep -v '^#' $VERIF/mutants/EXPECT | sed 's/ *#.*//' | while read patch id want own envs; do
     [ -z "$patch" ] && continue
-    out=$($VERIF/mutant.sh $VERIF/mutants/$patch $id quick 2>&1); code=$?
+    out=$(env $envs $VERIF/mutant.sh $VERIF/mutants/$patch $id quick 2>&1); code=$?
     if [ "$code" = "$want" ]; then echo "mutant $patch: $id exit $code as expected ($(echo "$out" | grep -m1 '^  violation' | cut -c1-140))"; else echo "MUTANT-UNEXPECTED $patch: $id exit $code, expected $want"; fi
   done
 fi
